@@ -189,8 +189,89 @@ fn refused_block_belongs_to_another_writer(report: &mut Report) {
     }
 }
 
+
+/// Plants something at the path of the FIRST block the backup tries to write, just before that write: what
+/// another writer that died half-way leaves (a non-empty, truncated file under the final name) or a directory.
+struct PlantAtFirstBlock {
+    root: std::path::PathBuf,
+    what: &'static str,
+    done: std::sync::atomic::AtomicBool,
+    planted: std::sync::Mutex<Option<String>>,
+}
+
+impl conserve::transport::verif_hooks::Interceptor for PlantAtFirstBlock {
+    fn before(&self, op: &conserve::transport::verif_hooks::OpInfo) -> conserve::transport::verif_hooks::Decision {
+        use conserve::transport::verif_hooks::{Decision, Verb};
+        let path = op.path.trim_start_matches("./");
+        if op.verb == Verb::Write && path.starts_with("d/") && !self.done.swap(true, std::sync::atomic::Ordering::SeqCst) {
+            let full = self.root.join(path);
+            match self.what {
+                "directory" => std::fs::create_dir(&full).unwrap(),
+                _ => {
+                    let payload = op.payload.clone().unwrap_or_default();
+                    std::fs::write(&full, &payload[..payload.len() / 2]).unwrap();
+                }
+            }
+            *self.planted.lock().unwrap() = Some(path.to_string());
+        }
+        Decision::Proceed
+    }
+    fn after(&self, _op: &conserve::transport::verif_hooks::OpInfo, _outcome: &conserve::transport::verif_hooks::Outcome) {}
+}
+
+/// Directed, real code + the property's oracles: a block write is refused with a GENUINE "already exists" —
+/// but what exists is not the block: a truncated file another writer left when it died, or a directory.  The file
+/// concerned may be skipped with an error; it must not be recorded as if its content were stored.
+fn refused_block_is_not_the_block(report: &mut Report) {
+    for what in ["half-written file", "directory"] {
+        let work = tempfile::tempdir().unwrap();
+        let (src, arch) = (work.path().join("src"), work.path().join("arch"));
+        std::fs::create_dir(&src).unwrap();
+        let big: Vec<u8> = (0..5000u32).map(|i| (i.wrapping_mul(2654435761) >> 24) as u8).collect();
+        let files: Vec<(&str, Vec<u8>)> = vec![("a-small", b"hello".to_vec()), ("big.bin", big), ("z-other", b"another file, longer than the cap".to_vec())];
+        for (n, c) in &files {
+            std::fs::write(src.join(n), c).unwrap();
+        }
+        create_archive(&arch);
+        let ic = std::sync::Arc::new(PlantAtFirstBlock { root: arch.clone(), what: if what == "directory" { "directory" } else { "half" }, done: Default::default(), planted: Default::default() });
+        let rt = tokio::runtime::Builder::new_current_thread().enable_all().build().unwrap();
+        let monitor = conserve::monitor::test::TestMonitor::arc();
+        let (ic2, a2, s2, m2) = (ic.clone(), arch.clone(), src.clone(), monitor.clone());
+        let r = rt.block_on(async move {
+            let transport = conserve::transport::Transport::local(&a2).with_interceptor(ic2);
+            let archive = conserve::Archive::open(transport).await?;
+            let options = conserve::BackupOptions { max_entries_per_hunk: 1000, max_block_size: 1 << 20, small_file_cap: 16, ..Default::default() };
+            conserve::backup(&archive, &s2, &options, m2).await
+        });
+        drop(rt);
+        let planted = ic.planted.lock().unwrap().clone();
+        let n_errors = monitor.take_errors().len();
+        let case = json!({"directed": "a block write refused because something else has the name", "planted": what, "at": planted});
+        report.case(&format!("refused-not-the-block/{what}"), planted.is_some());
+        report.hit("directed:refused-block-is-not-the-block");
+        let clean = matches!(&r, Ok(st) if st.errors == 0) && n_errors == 0;
+        // every recorded entry reads back to the source bytes from blocks that decode
+        let expect: BTreeMap<String, Vec<u8>> = files.iter().map(|(n, c)| (format!("/{n}"), c.clone())).collect();
+        for (sig, found) in crate::c13::raw_reader(&arch, 0, &expect) {
+            // (the planted thing itself is not the tool's doing)
+            if sig == "format:block-undecodable" && planted.as_deref().map(|p| found["block"].as_str().map(|b| p.ends_with(b)).unwrap_or(false)).unwrap_or(false) {
+                continue;
+            }
+            let sig2 = match sig.as_str() { "format:address-outside-block" => "fault:dangling-reference", "format:content-differs" => "fault:wrong-content", other => other };
+            report.oracle_fail(sig2, case.clone(), "after a block write was refused because something else has the block's name, an entry was recorded that does not read back to the source's bytes", found);
+        }
+        if clean {
+            let (rr, robs) = restore_observe(&arch, work.path(), &Sel::Latest, "refused");
+            if !rr.result.starts_with("result ok") || !rr.events.is_empty() || crate::c01::tree_diff(&observe(&src), &robs).is_some() {
+                report.oracle_fail("fault:false-success", case.clone(), "the backup reported complete success although a block could not be stored, and the version does not restore the source", json!({"restore": trunc(&rr.result), "events": rr.events.iter().take(2).collect::<Vec<_>>()}));
+            }
+        }
+    }
+}
+
 pub fn run(tier: &str, seed: u64, report: &mut Report) {
     enospc(seed, report);
+    refused_block_is_not_the_block(report);
     refused_block_belongs_to_another_writer(report);
     let thorough = tier == "thorough";
     let n_scen = if thorough { 40 } else { 4 };
